@@ -82,7 +82,7 @@ def main():
         bchunks = [batches[i::nw] for i in range(nw)]
         from concurrent.futures import ThreadPoolExecutor
         with ThreadPoolExecutor(nw) as ex:
-            outs = list(ex.map(lambda k: vf.impl("impl_annot.py", {"mode": "serial", "usercat_dir": d, "routes": ROUTES, "annots": chunks[k], "batches": bchunks[k]}, timeout=3000, env={"PYTHONPATH": vf.REPO + ":" + d}), range(nw)))
+            outs = list(ex.map(lambda k: vf.impl("impl_annot.py", {"mode": "serial", "usercat_dir": d, "routes": ROUTES, "annots": chunks[k], "batches": bchunks[k], "churn": k == 0}, timeout=3000, env={"PYTHONPATH": vf.REPO + ":" + d}), range(nw)))
     finally:
         shutil.rmtree(d, ignore_errors=True)
     nev, nontriv, samples = 0, set(), []
@@ -105,6 +105,10 @@ def main():
                 nontriv.add(json.dumps(a, sort_keys=True))
             if len(samples) < 3 and a.get("nest"):
                 samples.append({"annotation": a, "before": b, "pickle": row["pickle"]["reloaded"] == b, "cloudpickle-sub": row["cloudpickle-sub"]["reloaded"] == b})
+        for ch in o.get("churn", []):
+            R.violation("property", "after loading (and freeing) other nested annotations %s, a %s-loaded copy of %s accepts %s; its original accepts %s (round %d)" % (
+                ch["loaded_before"], ch["route"], json.dumps(ch["annotation"]), ch["got"], ch["expected"], ch["round"]), {"churn": ch}, key={"kind": "churn", "route": ch["route"]})
+        nev += 80 if k == 0 else 0
         for batch, e in zip([b for b in bchunks[k] for _ in (0, 1)], o["batches"]):
             if "build" in e:
                 continue
